@@ -73,14 +73,14 @@ PROPS = {
             'the inference from "status is never reset on an unwind path" to "no partial result is ever readable" is a written argument',
         ]),
     'C06': dict(
-        units=['nodepred', 'heaps', 'var'], level='other',
+        units=['nodepred', 'heaps', 'var', 'heightwalk'], level='other',
         replays=[],
         uncovered=[
             'maybe_change_value / maybe_change_value_manual / child_changed bodies (interleaved writes on several nodes): frame obligations only',
             'the MapRef did_change flag over time (a known history-dependent defect is recorded in DESIGN.md section 5 as not decidable here)',
         ]),
     'C05': dict(
-        units=['nodepred', 'observer', 'var'], level='other',
+        units=['nodepred', 'observer', 'var', 'heightwalk'], level='other',
         replays=[],
         uncovered=[
             'the became_unnecessary cascade and the cone statement itself',
@@ -92,7 +92,7 @@ PROPS = {
 LEMMA_PROPS = {
     'symfold': {'*': ['C18']},
     'heaps': {'lemma_reconfiguring_keeps_every_queued_node_reachable': ['C06', 'C19'], 'lemma_insert_keeps_every_queued_node_reachable': ['C06', 'C19'], '*': ['C19']},
-    'heightwalk': {'*': ['C19']},
+    'heightwalk': {'*': ['C19']},   # no lemmas
     'expert': {'*': ['C14']},
     'handlers': {'*': ['C09']},
     'observer': {'lemma_handler_count_invariant': ['C11', 'C09'], 'lemma_lifecycle': ['C10'], '*': ['C10']},
